@@ -549,14 +549,14 @@ theorem searchLoop_log (hvi : cfg.vi = false) (c0 : Changeset) (backup : Text) (
       · rw [h3]; exact hs2
       · rw [h3]; exact hs2.begin
     rw [wp_lowerMark, Nat.min_eq_left (Nat.le_of_lt hs3.facts.1)]
-    have hds : ∀ (sb : Text) (hi : Nat) (d : Dir),
+    have hds : ∀ (sb : Text) (hi hi0 : Nat) (d : Dir),
         wp (match (memHist cfg).search sb hi d with
             | some (idx, entry, pos) => do
               lb S U (LB.update S U entry pos)
               searchLoop S U cfg c0.undos.length backup backupPos fuel sb idx d true
-            | none => searchLoop S U cfg c0.undos.length backup backupPos fuel sb hi d false)
+            | none => searchLoop S U cfg c0.undos.length backup backupPos fuel sb hi0 d false)
           (LogAs c0) (fun _ _ => True) s3 := by
-      intro sb hi d
+      intro sb hi hi0 d
       cases (memHist cfg).search sb hi d with
       | none => exact ih _ _ _ _ s3 hs3
       | some r =>
@@ -565,13 +565,13 @@ theorem searchLoop_log (hvi : cfg.vi = false) (c0 : Changeset) (backup : Text) (
         refine wp_lb_any S U (fun a l ns h => ?_) trivial
         exact ih _ _ _ _ _ (hs3.notifs ns)
     split
-    · exact hds _ _ _
+    · exact hds _ _ _ _
     · exact ih _ _ _ _ s3 hs3
     · split
-      · exact hds _ _ _
+      · exact hds _ _ _ _
       · exact ih _ _ _ _ s3 hs3
     · split
-      · exact hds _ _ _
+      · exact hds _ _ _ _
       · exact ih _ _ _ _ s3 hs3
     · simp only [wp_bind]
       refine wp_lb_any S U (fun a l ns h => ?_) trivial
